@@ -9,3 +9,9 @@ package crypto
 //@   for C18 C11 C20
 //@   safe
 //@   ensures err != nil ==> pub == nil
+
+// Keccak-256 as an uninterpreted function of the byte content (idealisation).
+//@ spec func keccak(data Content) Content
+//@ trusted func Keccak256(data [][]byte) (r []byte)
+//@   ensures fresh(r) && len(r) == 32
+//@   ensures len(data) == 1 ==> content(r) == keccak(content(data[0]))
